@@ -213,11 +213,10 @@ func (s *sim) now() time.Duration { return time.Since(s.start) }
 func (s *sim) emit(side int, raw []byte) {
 	s.mu.Lock()
 	defer s.mu.Unlock()
-	p := &simPkt{id: s.nextID, from: side, raw: raw, at: time.Since(s.start)}
+	p := &simPkt{id: -1, from: side, raw: raw, at: time.Since(s.start)}
 	if a := s.assoc[side]; a != nil {
 		p.cwnd = a.CWND()
 	}
-	s.nextID++
 	s.fresh = append(s.fresh, p)
 }
 
@@ -349,6 +348,19 @@ func (s *sim) settle() {
 	fresh := s.fresh
 	s.fresh = nil
 	s.mu.Unlock()
+	// Packets written by the two sides at the same virtual instant arrive here in scheduler order; make the
+	// order canonical (time, then side; each side's own order is kept) before numbering them, so that a
+	// scenario replays identically.
+	sort.SliceStable(fresh, func(i, j int) bool {
+		if fresh[i].at != fresh[j].at {
+			return fresh[i].at < fresh[j].at
+		}
+		return fresh[i].from < fresh[j].from
+	})
+	for _, p := range fresh {
+		p.id = s.nextID
+		s.nextID++
+	}
 	for _, p := range fresh {
 		pk := &packet{}
 		if err := pk.unmarshal(false, p.raw); err == nil {
@@ -1060,6 +1072,9 @@ func runTransferScenario(t *testing.T, seed int64, nEvents int, st *xferStats) [
 	synctest.Test(t, func(t *testing.T) {
 		rng := rand.New(rand.NewSource(seed))
 		o := simRandomOpts(rng, seed)
+		if simForceTSN != nil {
+			o.tsnA, o.tsnB = simForceTSN[0], simForceTSN[1]
+		}
 		s := newSim(t, o, fmt.Sprintf("transfer/tsnA=%d/tsnB=%d/mtu=%d/buf=%d/il=%d,%d/zc=%v,%v/rr=%v", o.tsnA, o.tsnB, o.mtu, o.recvBuf, o.interleaveA, o.interleaveB, o.zeroA, o.zeroB, o.schedRR))
 		if !s.establish() {
 			s.fail("C04", fmt.Sprintf("fault-free handshake did not complete: errs=%v,%v", s.hsErr[0], s.hsErr[1]))
@@ -1176,11 +1191,90 @@ func runTransferScenario(t *testing.T, seed int64, nEvents int, st *xferStats) [
 			}
 		}
 		st.packets += len(s.wire)
+		if simTraceSink != nil {
+			*simTraceSink = s.normalizedTrace()
+		}
 		s.closeBoth()
 		fails = s.fails
 		s.report()
 	})
 	return fails
+}
+
+// offset sweep (C16): the same seeded scenario is run with different initial TSNs; the traces, with every
+// TSN expressed relative to its sender's initial TSN, must be identical.
+var (
+	simForceTSN  *[2]uint32
+	simTraceSink *[]string
+)
+
+// normalizedTrace: the observable outcome of a run — what each side delivered per stream (in order) and the
+// final state.  (Packet-by-packet traces are not compared: when timers of both sides fire at the same virtual
+// instant the goroutine scheduler decides the emission order, so two runs of one seed may interleave
+// differently although each is a legal execution.)
+func (s *sim) normalizedTrace() []string {
+	out := []string{}
+	for side := 0; side < 2; side++ {
+		for sid := uint16(0); sid < 8; sid++ {
+			line := fmt.Sprintf("delivered side=%d sid=%d:", side, sid)
+			ord, unord := []int{}, []int{}
+			for _, m := range s.recvd[side][sid] {
+				if m.unordered {
+					unord = append(unord, m.idx)
+				} else {
+					ord = append(ord, m.idx)
+				}
+			}
+			sort.Ints(unord)
+			out = append(out, fmt.Sprintf("%s ordered=%v unordered=%v", line, ord, unord))
+		}
+		if a := s.assoc[side]; a != nil {
+			a.lock.RLock()
+			out = append(out, fmt.Sprintf("final side=%d state=%d buffered=%d inflight=%d pending=%d credit=%d sent_tsns=%d acked_to=%d",
+				side, a.getState(), a.pendingQueue.getNumBytes()+a.inflightQueue.getNumBytes(), a.inflightQueue.size(), a.pendingQueue.size(),
+				a.getMyReceiverWindowCredit(), a.myNextTSN-a.initialTSN, a.cumulativeTSNAckPoint+1-a.initialTSN))
+			a.lock.RUnlock()
+		}
+	}
+	return out
+}
+
+func TestVerifSimShift(t *testing.T) {
+	seed := verifEnvInt("VERIF_SEED", 1)
+	n := int(verifEnvInt("VERIF_N", 15))
+	nEvents := int(verifEnvInt("VERIF_EVENTS", 200))
+	diffs, runs := 0, 0
+	defer func() { simForceTSN, simTraceSink = nil, nil }()
+	for i := 0; i < n; i++ {
+		sd := seed*1000003 + int64(i)
+		var ref []string
+		bases := [][2]uint32{{1000, 2000000}, {1000, 2000000}, {^uint32(0) - 3, ^uint32(0) - 40}, {^uint32(0) - 200, 5}, {^uint32(0) - uint32(1000+i*37), ^uint32(0) - uint32(7*i)}, {1 << 31, 1<<31 - 10}}
+		for bi, b := range bases {
+			var tr []string
+			bb := b
+			simForceTSN, simTraceSink = &bb, &tr
+			st := &xferStats{faults: map[string]int{}}
+			runTransferScenario(t, sd, nEvents, st)
+			runs++
+			if bi == 0 {
+				ref = tr
+				continue
+			}
+			if len(tr) != len(ref) {
+				diffs++
+				fmt.Printf("SIMFAIL prop=C16 same scenario, different initial TSNs, different behaviour (association-offset-sweep): seed=%d bases=%v trace lengths %d vs %d\n", sd, b, len(ref), len(tr))
+				continue
+			}
+			for k := range ref {
+				if ref[k] != tr[k] {
+					diffs++
+					fmt.Printf("SIMFAIL prop=C16 same scenario, different initial TSNs, different behaviour (association-offset-sweep): seed=%d bases=%v first difference at %d: [%s] vs [%s]\n", sd, b, k, ref[k], tr[k])
+					break
+				}
+			}
+		}
+	}
+	fmt.Printf("SIMSHIFT scenarios=%d runs=%d diffs=%d\n", n, runs, diffs)
 }
 
 func TestVerifSimTransfer(t *testing.T) {
